@@ -1,3 +1,4 @@
+#![allow(dead_code, unused_imports, unused_variables)]
 //! cwsim — deterministic chain simulation with fault injection for CosmWasm/cw-plus.
 //!
 //!   cwsim check <Cxx> <quick|thorough> [--mon ALL] [--runs N] [--threads N] [--dir /verif]
@@ -15,7 +16,8 @@ mod world;
 mod world_a;
 #[cfg(feature = "worlds_bcd")]
 mod world_b;
-#[cfg(feature = "worlds_bcd")]
+mod c_gov;
+mod c_group;
 mod world_c;
 #[cfg(feature = "worlds_bcd")]
 mod world_d;
@@ -75,7 +77,11 @@ fn main() {
     // never let backtraces into error text
     std::env::set_var("RUST_BACKTRACE", "0");
     std::env::set_var("RUST_LIB_BACKTRACE", "0");
-    std::panic::set_hook(Box::new(|_| {}));
+    if std::env::var("CWSIM_DEBUG").is_ok() {
+        std::panic::set_hook(Box::new(|i| eprintln!("panic: {}", i)));
+    } else {
+        std::panic::set_hook(Box::new(|_| {}));
+    }
     let args: Vec<String> = std::env::args().collect();
     if args.len() < 2 {
         eprintln!("usage: cwsim check|replay|hashes ...");
